@@ -243,7 +243,7 @@ def run_impl(binary, lines, tag):
     return res
 
 
-HARNESS_ONLY = ("frm.", "fl.hasheq", "ft.")
+HARNESS_ONLY = ("frm.", "fl.hasheq", "ft.", "thr.crowd")
 
 # harness builds with the crate's optional features (own target directories, so the
 # default build is never disturbed): name -> (cargo features, target dir)
